@@ -14,6 +14,21 @@ static inline void __M4RI_TEMPLATE_NAME(_mzd_combine)(word *m, word const *t[N],
 
 #if __M4RI_HAVE_SSE2
 
+  /* The vector code below needs m and all t[i] to be equally aligned modulo 16 bytes. That is not
+   * the case when m is a row of a window that starts at an odd word offset while the t[i] are rows
+   * of freshly allocated tables: use the plain word loop then. */
+  int same_alignment = 1;
+  for (int i = 0; i < N; ++i)
+    same_alignment &= (__M4RI_ALIGNMENT(m, 16) == __M4RI_ALIGNMENT(t[i], 16));
+  if (__M4RI_UNLIKELY(!same_alignment)) {
+    for (wi_t i = 0; i < wide; ++i) {
+      word x = t[0][i];
+      for (int j = 1; j < N; ++j) x ^= t[j][i];
+      m[i] ^= x;
+    }
+    return;
+  }
+
   assert((__M4RI_ALIGNMENT(m, 16) == 8) | (__M4RI_ALIGNMENT(m, 16) == 0));
 
   switch (N) { /* we rely on the compiler to optimise this switch away, it reads nicer than #if */
